@@ -14,4 +14,6 @@ print('regenerated', len(res), 'model files;', 'failed:', bad)
 PY
 cd coq
 timeout 3000 make -j16 -k 2>&1 | grep -v "^Axioms:\|^  \|^[A-Z][A-Za-z_]*\.[A-Za-z_.]* *$\|^[A-Za-z_.]* :\|ambiguous-paths\|New coercion path\|^Warning:$\|is not definitionally an identity" | tail -40
+cd ..
+PYTHONHASHSEED=0 PYTHONPATH=/repo tools/selftest/run.py 2>&1 | grep -v "^WARNING" | tail -3
 echo "setup done"
